@@ -31,6 +31,8 @@ def plan(tier, seed):
             j["name"] += "[%s]" % sz
             jobs.append(j)
     # the first pass: what is pruned by statistics never reaches the row-level pass (same harnesses as C05 / C04)
+    jobs.append(ch("C13", "vf/pyshim/h_c05.py", "h_row_groups_composition", 160 if tier == "quick" else 600,
+                   ["api.filter_row_groups", "api.filter_out_stats", "api.filter_out_cats"], env=dict(VERIF_SLEN=1)))
     for h in ("h_stats_clause", "h_stats_two_clauses", "h_stats_b_without_bounds"):
         jobs.append(ch("C13", "vf/pyshim/h_c05.py", h, t, ["api.filter_out_stats", "api.filter_val"],
                        env=dict(VERIF_SLEN=1)))
